@@ -46,14 +46,14 @@ def main():
         rc1, out1 = run_demo(tree, demo)
         res = []
         for pid in props:
-            env = dict(os.environ, VERIF_REPO=tree, VERIF_NO_CONFIRM="1", VERIF_EVIDENCE_DIR=os.path.join(SCR, "ev"))
+            env = dict(os.environ, VERIF_REPO=tree, VERIF_NO_CONFIRM="1", VERIF_EVIDENCE_DIR=os.path.join(SCR, f"ev-{os.getpid()}"))
             t0 = time.time()
             c = subprocess.run([os.path.join(V, "check"), pid, tier], cwd=V, env=env, capture_output=True, text=True)
             first = next((l.strip() for l in c.stdout.splitlines() if l.strip().startswith("class=")), "")
             res.append(f"{pid} {tier}: exit={c.returncode} {first[:140]} ({time.time()-t0:.0f}s)")
         shutil.rmtree(tree, ignore_errors=True)
         print(f"{name}: demo on /repo exit={rc0} | baseline on patched: {base} | demo on patched exit={rc1} | " + " | ".join(res), flush=True)
-    shutil.rmtree(os.path.join(SCR, "ev"), ignore_errors=True)
+    shutil.rmtree(os.path.join(SCR, f"ev-{os.getpid()}"), ignore_errors=True)
 
 if __name__ == "__main__":
     main()
